@@ -218,6 +218,10 @@ def main(argv):
     floors = getattr(mod, "FLOORS", [])
     for fl in floors:
         if m["counters"].get(fl, 0) <= 0 and m["classes"].get(fl, 0) <= 0:
+            # a floor tied to an internal hook point (an inner function, a private attribute) that a behaviour-preserving
+            # refactoring removed is reported as not applicable by the module, and does not make the run inconclusive
+            if m["counters"].get(fl + ":not-applicable", 0) > 0:
+                continue
             reasons.append("floor never reached: %s" % fl)
     for name in getattr(mod, "PROBE_FLOORS", []):
         short = name
